@@ -1,10 +1,120 @@
 """C01 SM3 digest equals GB/T 32905 for every message"""
-from .. import rules_k as K, paramalg as pa
+from .. import rules_k as K, rules_p as RP, rules_i as I, rules_g as G, frame as FR, paramalg as pa
+from ..prov import Prov, norm, const_int
+from ..builder import Canon
+
+J = 'each(Range::Range{0, 64})'
+SS1 = 'rotate_left(wrapping_add(wrapping_add(rotate_left(var:a@in, 12), var:e@in), rotate_left(t(%s), (%s as u32))), 7)' % (J, J)
+ROUND = {
+    'a': 'wrapping_add(wrapping_add(wrapping_add(ff(var:a@in, var:b@in, var:c@in, (%s as u32)), var:d@in), BitXor(%s, rotate_left(var:a@in, 12))), var:w1=repeat{0}[%s])' % (J, SS1, J),
+    'b': 'var:a@in', 'c': 'rotate_left(var:b@in, 9)', 'd': 'var:c@in',
+    'e': 'p0(wrapping_add(wrapping_add(wrapping_add(gg(var:e@in, var:f@in, var:g@in, (%s as u32)), var:h@in), %s), var:w=repeat{0}[%s]))' % (J, SS1, J),
+    'f': 'var:e@in', 'g': 'rotate_left(var:f@in, 19)', 'h': 'var:g@in',
+}
+W = 'var:w=repeat{0}'
+EXPAND = 'BitXor(BitXor(p1(BitXor(BitXor(%s[SubWithOverflow(var:j@in, 16).0], %s[SubWithOverflow(var:j@in, 9).0]), rotate_left(%s[SubWithOverflow(var:j@in, 3).0], 15))), rotate_left(%s[SubWithOverflow(var:j@in, 13).0], 7)), %s[SubWithOverflow(var:j@in, 6).0])' % (W, W, W, W, W)
+LOAD = 'BitOr(BitOr(BitOr(Shl(from($b_i[MulWithOverflow(var:j@in, 4).0]), 24), Shl(from($b_i[AddWithOverflow(MulWithOverflow(var:j@in, 4).0, 1).0]), 16)), Shl(from($b_i[AddWithOverflow(MulWithOverflow(var:j@in, 4).0, 2).0]), 8)), from($b_i[AddWithOverflow(MulWithOverflow(var:j@in, 4).0, 3).0]))'
+BOOL = {
+    'ff': ('BitXor(BitXor($x, $y), $z)', 'BitOr(BitOr(BitAnd($x, $y), BitAnd($x, $z)), BitAnd($y, $z))'),
+    'gg': ('BitXor(BitXor($x, $y), $z)', 'BitOr(BitAnd($x, $y), BitAnd(Not($x), $z))'),
+    't': ('T00', 'T16'),
+}
 
 
 def run(cx):
-    cx.not_decided.append('equality of the 64-round compression function with GB/T 32905 for all 2^512 block values (functional)')
+    cx.not_decided.append('bit-exact equality of the digest with GB/T 32905 for all messages: decided only through the structural identity of every component (constants, padding, expansion, round transfer function, boolean functions, output encoding) with the standard\'s definition, not by evaluating the function')
+    F = cx.F
     K.oracle_selfcheck(cx, 'sm3')
     s = pa.sm3()
     K.k_array(cx, 'K-SM3', 'gm_sm3', 'IV', s.iv, 4)
     K.k_ints(cx, 'K-SM3', 'gm_sm3', {'T00': s.t0, 'T16': s.t16})
+    h = cx.fn('gm_sm3::sm3_hash')
+    if h is None:
+        return
+    RP.p_pure(cx, 'P-PURE', 'sm3_hash', [h.name])
+    # ---- permutations and boolean functions
+    for name, want in (('p0', 'BitXor(BitXor($x, rotate_left($x, 9)), rotate_left($x, 17))'), ('p1', 'BitXor(BitXor($x, rotate_left($x, 15)), rotate_left($x, 23))')):
+        f = cx.fn('gm_sm3::' + name, 'I-SM3')
+        if f is not None:
+            r = I.returns(f, F)
+            cx.add('I-SM3', name, [x[1] for x in r] == [want], '%s(X) = %s' % (name.upper(), r), f.loc())
+    for name, (lo, hi) in BOOL.items():
+        f = cx.fn('gm_sm3::' + name, 'I-SM3')
+        if f is None:
+            continue
+        r = I.returns(f, F)
+        low = [v for c, v in r if any(x in ('Le($j, 15)=otherwise', 'Le($j, 15)=1', 'Lt($j, 16)=otherwise') for x in c)]
+        high = [v for c, v in r if any(x in ('Le($j, 15)=0', 'Lt($j, 16)=0') for x in c) and v != '0']
+        cx.add('I-SM3', name, low == [lo] and high == [hi], '%s_j: j<=15 -> %s ; 16<=j<=63 -> %s' % (name, low, high), f.loc())
+    # ---- compression function
+    cf = cx.fn('gm_sm3::cf', 'I-SM3')
+    if cf is not None:
+        tr = I.transfer(cf, F, 'Range::Range{0, 64}', list(ROUND))
+        if tr is None:
+            cx.violate('I-SM3', 'cf/rounds', 'the 64-round loop `for j in 0..64` was not found', cf.loc())
+        else:
+            for v in ROUND:
+                cx.add('I-SM3', 'cf/round/' + v, tr[v] == ROUND[v], 'round transfer %s\' = %s' % (v.upper(), FR.short(tr[v] or '?', 200)), cf.loc(), {'got': tr[v], 'want': ROUND[v]})
+        ws = I.stores(cf, F, 'w')
+        cx.add('I-SM3', 'cf/load', ('var:j@in', LOAD) in ws, 'W_j (j<16) = big-endian word j of the block', cf.loc(), {'stores': [FR.short(x[1], 120) for x in ws]})
+        cx.add('I-SM3', 'cf/expand', ('var:j@in', EXPAND) in ws, 'W_j = P1(W_{j-16} ^ W_{j-9} ^ (W_{j-3} <<< 15)) ^ (W_{j-13} <<< 7) ^ W_{j-6}', cf.loc())
+        w1 = I.stores(cf, F, 'w1')
+        cx.add('I-SM3', 'cf/w1', w1 == [('var:j@in', 'BitXor(%s[var:j@in], %s[AddWithOverflow(var:j@in, 4).0])' % (W, W))], "W'_j = W_j ^ W_{j+4}", cf.loc())
+        # loop bounds of the three while-loops: j <= 15, 16..=67, 0..=63
+        P = Prov(cf, F, cut_loops=True); cn = Canon(cf, P)
+        bounds = sorted((cn.c(p.args[0]), p.op, const_int(p.args[1])) for _, p, _, _ in G.bool_switches(cf, P) if p.kind == 'cmp')
+        inits = sorted(const_int(norm(P.rvalue(st['rv'], b, i, 0))) for b, i, st in cf.stmts() if st['k'] == 'assign' and cf.locals[st['lhs']['l']].get('name') == 'j' and st['rv']['k'] == 'use' and st['rv']['op']['k'] == 'const')
+        cx.add('I-SM3', 'cf/loop-bounds', [(o, c) for _, o, c in bounds] == [('Le', 15), ('Le', 63), ('Le', 67)] and inits == [0, 0, 16],
+               'word loops run j = 0..=15, 16..=67, 0..=63 (bounds %s, starts %s)' % (bounds, inits), cf.loc())
+        ff = I.stores(cf, F, 'v_i', through_deref=True)
+        want = [(str(k), 'BitXor($v_i[%d], phi($v_i[%d] | %s))' % (k, k, ROUND['abcdefgh'[k]])) for k in range(8)]
+        cx.add('I-SM3', 'cf/feed-forward', ff == want, 'V_{i+1} = ABCDEFGH xor V_i, word by word', cf.loc())
+        init = {}
+        for b, i, st in cf.stmts():
+            nm = cf.locals[st['lhs']['l']].get('name') if st['k'] == 'assign' else None
+            if nm in ROUND and not st['lhs']['p']:
+                v = cn.c(norm(P.rvalue(st['rv'], b, i, 0)))
+                if v.startswith('$v_i['):
+                    init[nm] = v
+        cx.add('I-SM3', 'cf/init', init == {'abcdefgh'[k]: '$v_i[%d]' % k for k in range(8)}, 'A..H are initialised from V_i[0..8] in order', cf.loc())
+    # ---- driver: block iteration and output encoding
+    P = Prov(h, F, cut_loops=True); cn = Canon(h, P)
+    out = I.stores(h, F, 'output')
+    E8 = 'each(Range::Range{0, 8})'
+    V = 'var:v_i=IV'
+    got = [(a, b.replace(V, 'V').replace('IV[', 'V[')) for a, b in out]
+    want = [('MulWithOverflow(%s, 4).0' % E8, '(Shr(V[%s], 24) as u8)' % E8), ('AddWithOverflow(MulWithOverflow(%s, 4).0, 1).0' % E8, '(Shr(V[%s], 16) as u8)' % E8),
+            ('AddWithOverflow(MulWithOverflow(%s, 4).0, 2).0' % E8, '(Shr(V[%s], 8) as u8)' % E8), ('AddWithOverflow(MulWithOverflow(%s, 4).0, 3).0' % E8, '(V[%s] as u8)' % E8)]
+    cx.add('I-SM3', 'sm3_hash/output', got == want, 'digest = big-endian bytes of V[0..8]', h.loc(), {'got': out})
+    CG = 'var:count_group@in'
+    rng = 'Range::Range{MulWithOverflow(%s, 64).0, AddWithOverflow(MulWithOverflow(%s, 64).0, 64).0}' % (CG, CG)
+    bi = I.stores(h, F, 'b_i')
+    cx.add('I-SM3', 'sm3_hash/blocks', bi == [('SubWithOverflow(each(%s), MulWithOverflow(%s, 64).0).0' % (rng, CG), 'index(unwrap(pad($msg)), each(%s))' % rng)],
+           'block i is bytes 64i..64i+64 of the padded message, in order', h.loc())
+    cfs = FR.calls_of(h, 'gm_sm3::cf')
+    ok = len(cfs) == 1 and FR.arg_canon(h, P, cn, cfs[0], 1).startswith('var:b_i')
+    a0 = FR.arg_canon(h, P, cn, cfs[0], 0) if cfs else ''
+    cx.add('I-SM3', 'sm3_hash/chain', ok and a0 in ('IV', 'var:v_i=IV', 'var:v_i@in'), 'cf is applied to the chaining value (initialised from IV) and each block: cf(%s, ..)' % a0, h.loc())
+    sw = [(p.kind, sorted(cn.c(a) for a in p.args)) for _, p, _, _ in G.bool_switches(h, P)]
+    cx.add('I-SM3', 'sm3_hash/termination', ('eq', sorted(['MulWithOverflow(%s, 64).0' % CG, 'len(unwrap(pad($msg)))'])) in sw, 'iteration stops exactly when 64*count == padded length', h.loc())
+    # ---- padding
+    pd = cx.fn('gm_sm3::pad', 'L-LEN64')
+    if pd is not None:
+        P = Prov(pd, F, cut_loops=True); cn = Canon(pd, P)
+        pushes = [FR.arg_canon(pd, P, cn, b, 1) for b in FR.calls_of(pd, 'push')]
+        BL = '(Shl(len($msg), 3) as u64)'
+        want = ['128', '0'] + ['(BitAnd(Shr(%s, %d), 255) as u8)' % (BL, s_) for s_ in (56, 48, 40, 32, 24, 16, 8)] + ['(BitAnd(%s, 255) as u8)' % BL]
+        alt = ['128', '0'] + ['(Shr(%s, %d) as u8)' % (BL, s_) for s_ in (56, 48, 40, 32, 24, 16, 8)] + ['(%s as u8)' % BL]
+        cx.add('L-LEN64', 'pad/bytes', pushes in (want, alt), 'padding = 0x80, zeros, then the 64-bit big-endian BIT length (8*len carried in 64 bits, 8 bytes): %s' % pushes, pd.loc())
+        # the length is taken from the ORIGINAL message (before 0x80 is appended)
+        lens = [b for b in FR.calls_of(pd, 'len')]
+        first_len = min(lens) if lens else None
+        pb = FR.calls_of(pd, 'push')
+        dom = pd.dominators()
+        cx.add('L-LEN64', 'pad/len-before-append', first_len is not None and all(first_len in dom.get(b, ()) for b in pb), 'the bit length is computed before anything is appended', pd.loc())
+        loops = pd.sccs()
+        zero = [b for b in pb if FR.arg_canon(pd, P, cn, b, 1) == '0']
+        inloop = [b for b in pb if any(b in c for c in loops)]
+        cx.add('L-LEN64', 'pad/fill-loop', zero == inloop and len(zero) == 1, 'only the zero fill is inside the loop; 0x80 and the 8 length bytes are appended once', pd.loc())
+        fill = [p for _, p, _, _ in G.bool_switches(pd, P) if p.kind == 'eq' and cn.c(p.args[0]).startswith('Rem(len(') and const_int(p.args[1]) == 56]
+        cx.add('L-LEN64', 'pad/fill-exit', len(fill) == 1 and 'Rem(len($msg), 64)' in cn.c(fill[0].args[0]), 'zero fill stops exactly when length = 56 mod 64', pd.loc())
